@@ -2,6 +2,294 @@
 
 package main
 
-import "github.com/wader/fq/internal/verifharness/hlib"
+import (
+	"fmt"
+	"io/fs"
+	"path"
+	"sort"
+	"strings"
 
-func emitFacts(o *hlib.Out) {}
+	"github.com/wader/fq/internal/verifharness/hlib"
+	"github.com/wader/fq/pkg/interp"
+	"github.com/wader/gojq"
+)
+
+// -facts: the override table of lean/FqModel/Gen/Overrides.lean, derived a SECOND time by other means:
+//   - the sources are the embedded file systems of the running binary (interp's builtinFS, Registry.FSs in
+//     their real registration order), followed like interp.go:826-947 does: `include`s depth first, a file
+//     once, a file with a root expression is a dynamic include whose OUTPUT (evaluated by fq) is the source;
+//   - they are parsed with the gojq parser (FuncDefs of the module query);
+//   - "is a builtin" = the reference engine compiles a call of that name/arity with nothing else defined
+//     (plus debug/0, stderr/0, input_filename/0, which belong to gojq's CLI);
+//   - shapes are compared on the AST (printed form of sub-queries).
+// One case line per colliding definition: `ov <name>/<arity> <file>` TAB `<shape>`; then `count` TAB n and
+// `gofn` TAB the Go-registered fq functions that collide with a builtin (expected none: gojq looks custom
+// functions up last, compiler.go:1041, so such a function would be dead).
+// Drv/C07.lean compares every line with Gen.Overrides (DIVERGE = the text scanner and the parser disagree).
+
+type fdef struct {
+	file string
+	fd   *gojq.FuncDef
+}
+
+func isRefBuiltin(name string, arity int) bool {
+	switch fmt.Sprintf("%s/%d", name, arity) {
+	case "debug/0", "stderr/0", "input_filename/0":
+		return true
+	}
+	call := name
+	if arity > 0 {
+		call += "(" + strings.TrimSuffix(strings.Repeat(".;", arity), ";") + ")"
+	}
+	q, err := gojq.Parse(call)
+	if err != nil {
+		return false // a keyword or otherwise not callable
+	}
+	_, err = gojq.Compile(q)
+	if err == nil {
+		return true
+	}
+	return !strings.Contains(err.Error(), "function not defined")
+}
+
+func printed(src string) string {
+	q, err := gojq.Parse(src)
+	if err != nil {
+		return "<unparsable " + src + ">"
+	}
+	return q.String()
+}
+
+func callSrc(name string, params []string) string {
+	if len(params) == 0 {
+		return name
+	}
+	return name + "(" + strings.Join(params, "; ") + ")"
+}
+
+// topCall: q is exactly one function call `f(args…)` (no suffix, no operator, no local definitions)
+func topCall(q *gojq.Query) (string, []*gojq.Query, bool) {
+	if q == nil || len(q.FuncDefs) != 0 || q.Op != gojq.Operator(0) || q.Left != nil || q.Right != nil {
+		return "", nil, false
+	}
+	if q.Func != "" {
+		return q.Func, nil, true
+	}
+	t := q.Term
+	if t == nil || t.Type != gojq.TermTypeFunc || t.Func == nil || len(t.SuffixList) != 0 {
+		return "", nil, false
+	}
+	return t.Func.Name, t.Func.Args, true
+}
+
+func loadAll(f *fqInst) ([]fdef, []string, error) {
+	bfs := interp.VerifC07BuiltinFS()
+	var regFiles []struct{ name, data string }
+	for _, rfs := range interp.DefaultRegistry.FSs {
+		es, err := rfs.ReadDir(".")
+		if err != nil {
+			return nil, nil, err
+		}
+		for _, e := range es {
+			if !strings.HasSuffix(e.Name(), ".jq") {
+				continue
+			}
+			b, err := fs.ReadFile(rfs, e.Name())
+			if err != nil {
+				return nil, nil, err
+			}
+			regFiles = append(regFiles, struct{ name, data string }{e.Name(), string(b)})
+		}
+	}
+	var all []fdef
+	var dynamic []string
+	seen := map[string]bool{}
+	var load func(name string) error
+	load = func(name string) error {
+		if strings.HasPrefix(name, "@config/") {
+			return nil
+		}
+		name = strings.TrimPrefix(name, "@builtin/")
+		fn := name + ".jq"
+		if seen[fn] {
+			return nil
+		}
+		seen[fn] = true
+		b, err := fs.ReadFile(bfs, fn)
+		if err != nil {
+			return fmt.Errorf("include %q: %w", name, err)
+		}
+		q, err := gojq.Parse(string(b))
+		if err != nil {
+			return fmt.Errorf("%s: %w", fn, err)
+		}
+		file := "pkg/interp/" + fn
+		if q.Term != nil || q.Op != gojq.Operator(0) || q.Func != "" {
+			// dynamic include: the output of the root expression is the source (interp.go:888-923)
+			dynamic = append(dynamic, file)
+			if name == "registry_include" {
+				// its output is the registry's .jq files joined with "\n": parse them one by one, same order
+				for _, rf := range regFiles {
+					rq, err := gojq.Parse(rf.data)
+					if err != nil {
+						return fmt.Errorf("%s: %w", rf.name, err)
+					}
+					for _, fd := range rq.FuncDefs {
+						all = append(all, fdef{"format/*/" + rf.name, fd})
+					}
+				}
+				// and check that this is what fq's own evaluation of the include gives
+				src, err := f.evalString(string(b))
+				if err != nil {
+					return fmt.Errorf("%s: %w", fn, err)
+				}
+				var want []string
+				for _, rf := range regFiles {
+					want = append(want, rf.data)
+				}
+				if src != strings.Join(want, "\n") {
+					return fmt.Errorf("%s: output is not the registry files in FS order", fn)
+				}
+				return nil
+			}
+			src, err := f.evalString(string(b))
+			if err != nil {
+				return fmt.Errorf("%s: %w", fn, err)
+			}
+			q, err = gojq.Parse(src)
+			if err != nil {
+				return fmt.Errorf("%s (generated): %w", fn, err)
+			}
+		}
+		for _, im := range q.Imports {
+			p := im.IncludePath
+			if p == "" {
+				p = im.ImportPath
+			}
+			if !strings.HasPrefix(p, "@") && !path.IsAbs(p) {
+				p = path.Join(path.Dir(name), p)
+			}
+			if err := load(p); err != nil {
+				return err
+			}
+		}
+		for _, fd := range q.FuncDefs {
+			all = append(all, fdef{file, fd})
+		}
+		return nil
+	}
+	if err := load("init"); err != nil {
+		return nil, nil, err
+	}
+	return all, dynamic, nil
+}
+
+func (f *fqInst) evalString(prog string) (string, error) {
+	o := f.evalDirectRaw(prog)
+	if len(o) != 1 {
+		return "", fmt.Errorf("want one output, got %d", len(o))
+	}
+	s, ok := o[0].(string)
+	if !ok {
+		return "", fmt.Errorf("output is not a string")
+	}
+	return s, nil
+}
+
+func emitFacts(o *hlib.Out) {
+	f := newFq()
+	all, dynamic, err := loadAll(f)
+	if err != nil {
+		o.Verdict("BADOP", "cannot follow the include graph: "+err.Error())
+		return
+	}
+	key := func(fd *gojq.FuncDef) string { return fmt.Sprintf("%s/%d", fd.Name, len(fd.Args)) }
+	first := map[string]int{}
+	for i, d := range all {
+		if _, ok := first[key(d.fd)]; !ok {
+			first[key(d.fd)] = i
+		}
+	}
+	n := 0
+	for i, d := range all {
+		fd := d.fd
+		if !isRefBuiltin(fd.Name, len(fd.Args)) {
+			continue
+		}
+		n++
+		shape := "other"
+		name, args, ok := topCall(fd.Body)
+		if ok && (name == "_binary_or_orig" || name == "_bytes_or_orig") && len(args) == 2 &&
+			args[1].String() == printed(callSrc("_orig_"+fd.Name, fd.Args)) {
+			cnt, capt := 0, -1
+			for j := 0; j < i; j++ {
+				c := all[j].fd
+				if c.Name == "_orig_"+fd.Name && len(c.Args) == len(fd.Args) {
+					cnt++
+					if c.Body.String() == printed(callSrc(fd.Name, c.Args)) && first[key(fd)] > j {
+						capt = j
+					}
+				}
+			}
+			if cnt == 1 && capt >= 0 && first[key(fd)] == i {
+				shape = "guarded " + name
+			}
+		}
+		file := d.file
+		o.Case(fmt.Sprintf("ov %s %s", key(fd), file), shape)
+		o.Class("ov " + key(fd))
+	}
+	o.Case("count", fmt.Sprint(n))
+	// guard helpers, on the AST
+	helper := func(name string) string {
+		var found []*gojq.FuncDef
+		for _, d := range all {
+			if d.fd.Name == name && len(d.fd.Args) == 2 {
+				found = append(found, d.fd)
+			}
+		}
+		if len(found) != 1 {
+			return fmt.Sprintf("defined %d times", len(found))
+		}
+		fd := found[0]
+		switch name {
+		case "_binary_or_orig":
+			if fd.Body.String() == printed(`if _exttype == "binary" then `+fd.Args[0]+` else `+fd.Args[1]+` end`) && first["_exttype/0"] == 0 && !hasDef(all, "_exttype", 0) {
+				return "ok"
+			}
+		case "_bytes_or_orig":
+			n, args, ok := topCall(fd.Body)
+			if ok && n == "_binary_or_orig" && len(args) == 2 && args[1].String() == printed(fd.Args[1]) && !strings.Contains(" "+strings.NewReplacer("(", " ", ")", " ", ";", " ", "|", " ").Replace(args[0].String())+" ", " "+fd.Args[1]+" ") {
+				return "ok"
+			}
+		}
+		return "other: " + fd.Body.String()
+	}
+	o.Case("helper _binary_or_orig", helper("_binary_or_orig"))
+	o.Case("helper _bytes_or_orig", helper("_bytes_or_orig"))
+	sort.Strings(dynamic)
+	o.Case("dynamic", strings.Join(dynamic, ","))
+	// Go-registered functions that collide with a builtin
+	var coll []string
+	for _, fn := range interp.DefaultRegistry.EnvFuncFns {
+		g := fn(f.i)
+		for a := g.MinArity; a <= g.MaxArity; a++ {
+			if isRefBuiltin(g.Name, a) {
+				coll = append(coll, fmt.Sprintf("%s/%d", g.Name, a))
+			}
+		}
+	}
+	sort.Strings(coll)
+	o.Case("gofn", "["+strings.Join(coll, ",")+"]")
+	o.Stat("fq_definitions", len(all))
+	o.Stat("go_functions", len(interp.DefaultRegistry.EnvFuncFns))
+}
+
+func hasDef(all []fdef, name string, arity int) bool {
+	for _, d := range all {
+		if d.fd.Name == name && len(d.fd.Args) == arity {
+			return true
+		}
+	}
+	return false
+}
